@@ -3,7 +3,7 @@
    Models: model/Bincode.v (bincode encoding of WalEntry/WalRecord, decoder),
            model/Wal.v (directory, append / reopen / checkpoint / replay). *)
 From Coq Require Import List NArith ZArith Bool Sorted.
-From Verif Require Import Bincode Wal WalProofs.
+From Verif Require Import Bincode Wal WalProofs WalCrashProofs.
 Import ListNotations.
 Open Scope N_scope.
 
@@ -152,6 +152,83 @@ Proof.
   apply mk_record_valid; solve_wf.
 Qed.
 
+(* ---- histories that continue after a crash ----
+   [Crash k] = the newest file keeps only its first k bytes (any k), then the log is reopened.
+   The specification is at record level (WalCrashProofs: a_run / durable): a crash keeps the
+   older files and the whole records of the newest file that lie within k bytes
+   (C15_durable_crash); every later append adds one record (C15_durable_append/_checkpoint).
+   For EVERY history of Append / Reopen / Checkpoint / Crash: the run does not panic, the
+   directory is exactly the encoding of the specified files, replay from any sequence number
+   succeeds and delivers exactly the durable records in order, their numbers increase strictly
+   (so a number of a delivered record is never given out again) and none exceeds the counter. *)
+Theorem C15_crash_histories : forall ops, hist_ok ops ->
+  exists s, run ops = Some s /\
+    sdir s = enc (afiles (a_run ops)) /\ counter s = actr (a_run ops) /\
+    (forall from, replay (sdir s) from =
+       (keep from (durable ops), Done (last_seq (keep from (durable ops)) from))) /\
+    StronglySorted N.lt (map seq (durable ops)) /\
+    Forall (fun r => seq r <= counter s) (durable ops) /\
+    match a_last (afiles (a_run ops)) with
+    | None => sdir s = []
+    | Some (n, R) => newest (sdir s) = Some (n, frames R)
+    end.
+Proof. exact crash_histories. Qed.
+
+(* what each operation does to the durable log and to the counter *)
+Theorem C15_durable_append : forall ops e, hist_ok (ops ++ [Append e]) ->
+  durable (ops ++ [Append e]) = durable ops ++ [mk_record (actr (a_run ops) + 1) e] /\
+  actr (a_run (ops ++ [Append e])) = actr (a_run ops) + 1.
+Proof. exact durable_append. Qed.
+
+Theorem C15_durable_checkpoint : forall ops x t, hist_ok (ops ++ [Checkpoint x t]) ->
+  durable (ops ++ [Checkpoint x t]) = durable ops ++ [mk_record (actr (a_run ops) + 1) (CheckpointE x t)] /\
+  actr (a_run (ops ++ [Checkpoint x t])) = actr (a_run ops) + 1.
+Proof. exact durable_checkpoint. Qed.
+
+Theorem C15_durable_reopen : forall ops, hist_ok ops ->
+  durable (ops ++ [Reopen]) = durable ops /\ actr (a_run (ops ++ [Reopen])) = actr (a_run ops).
+Proof. exact durable_reopen. Qed.
+
+(* the crash: with (n, lastR) the newest file, exactly [fit k lastR] of it survives (the longest
+   prefix of whole records within k bytes, C15_fit_longest).  The counter becomes the number
+   of the last surviving record of that file, so the number of a torn record is given out
+   again by the next append; if no record of the file survives the counter becomes the file
+   number n (= the number of its torn first record), the next append gets n+1 and n is
+   never used again.  Either way every later number exceeds every delivered one. *)
+Theorem C15_durable_crash : forall ops k,
+  match a_last (afiles (a_run ops)) with
+  | None => durable (ops ++ [Crash k]) = durable ops /\ durable ops = []
+  | Some (n, lastR) =>
+      exists before, durable ops = before ++ lastR /\
+        durable (ops ++ [Crash k]) = before ++ fit k lastR /\
+        actr (a_run (ops ++ [Crash k])) = last_seq (fit k lastR) n
+  end.
+Proof. exact durable_crash. Qed.
+
+(* non-vacuity: tear inside the body of record 2 (number 2 is given out again), later the
+   first record of file 3 is torn (number 3 is skipped); three files remain, replay succeeds *)
+Definition crash_ops : list op :=
+  [Append (DeleteNode [116] 1); Append (DeleteNode [116] 2); Crash 50;
+   Append (DeleteNode [116] 3); Reopen; Append (DeleteNode [116] 4); Crash 10;
+   Append (DeleteNode [116] 5)].
+
+Lemma crash_ops_ok : hist_ok crash_ops.
+Proof.
+  unfold hist_ok, crash_ops. split; [|vm_compute; reflexivity].
+  cbn [entries_of flat_map op_entries app]. solve_wf.
+Qed.
+
+Example C15_crash_nonvacuous :
+  hist_ok crash_ops /\
+  map seq (durable crash_ops) = [1; 2; 4] /\
+  map ent (durable crash_ops) = [DeleteNode [116] 1; DeleteNode [116] 3; DeleteNode [116] 5] /\
+  match run crash_ops with
+  | Some s => map fst (sdir s) = [1; 2; 3; 4] /\ map seq (fst (replay (sdir s) 0)) = [1; 2; 4] /\
+              snd (replay (sdir s) 0) = Done 4 /\ counter s = 4
+  | None => False
+  end.
+Proof. split; [exact crash_ops_ok|]. vm_compute. repeat split; reflexivity. Qed.
+
 Print Assumptions C15_codec.
 Print Assumptions C15_replay_all.
 Print Assumptions C15_replay_entries.
@@ -160,3 +237,8 @@ Print Assumptions C15_torn.
 Print Assumptions C15_fit_longest.
 Print Assumptions C15_corrupt.
 Print Assumptions C15_refuted.
+Print Assumptions C15_crash_histories.
+Print Assumptions C15_durable_append.
+Print Assumptions C15_durable_checkpoint.
+Print Assumptions C15_durable_reopen.
+Print Assumptions C15_durable_crash.
